@@ -1101,7 +1101,65 @@ def g_c07(r, tier, env, Ls):
             p["ptoks"] = G.be_param_tokens(b)
         meta = dict(p)
         cs.append(Case(problem_line(p, trace=4), meta, "solve", oracle=oracle_ros_controller, tags=["integ=%d" % p["integ"], "L=%d" % p["L"]]))
+    # backward Euler step-size schedule on problems that get harder as they go (autocatalysis, few Newton iterations
+    # allowed, several internal steps): successes and failures interleave.  An inert tracer species (no reaction names
+    # it) has the Jacobian diagonal 0, so its element of every recorded matrix is exactly 1/H.
+    for _ in range(150 if tier == "quick" else 3000):
+        ns = r.rng(2, 4); L = r.pick(Ls)
+        a, b = r.below(ns), r.below(ns)
+        rx = [([a, b], [(b, 2.0)])] + G.gen_mech(r, ns, nrx=r.rng(0, 2), allow_param=False)
+        ns1 = ns + 1                              # species ns is the tracer
+        bp = dict(env["be"]); dt = r.logu(0.5, 20.0)
+        bp["h_start"] = dt / r.pick([1.5, 2.0, 3.0, 4.0, 6.0, 8.0])
+        bp["max_number_of_steps"] = r.rng(2, 6)
+        if r.chance(0.5): bp["time_step_reductions"] = [r.pick([0.5, 0.6, 0.3, 0.75]) for _ in range(5)]
+        p = dict(integ=1, L=L, csc=r.below(2), kind=r.below(2), ncell=1, ns=ns1, perm=r.shuffle(range(ns1)), rx=rx,
+                 k=[r.logu(1e-2, 1e1) for _ in rx], y=[r.logu(1e-3, 1e1) for _ in range(ns)] + [1.0],
+                 atol=[r.pick([1e-3, 1e-8, 1e-12])] * ns1, rtol=r.pick([1e-3, 1e-6, 1e-9]), dt=dt, ptoks=G.be_param_tokens(bp), pname=None)
+        meta = dict(p, tracer=ns, be=bp)
+        cs.append(Case(problem_line(p, clamp=0, trace=400), meta, "solve", oracle=oracle_be_schedule, tags=["integ=1", "be_schedule"]))
     return cs
+
+def oracle_be_schedule(c, out):
+    """necessary conditions on the sequence of step sizes of a backward-Euler solve, read off the tracer's diagonal
+    element (exactly 1/H) of the matrix of every Newton iteration: H only changes by a configured reduction factor (in the
+    configured order), by doubling, or by the clip to the remaining time; and a doubling needs two consecutive successes
+    at the current H, i.e. at least four Newton iterations at that H since the last change (convergence is only tested from
+    the second iteration of an outer iteration on)."""
+    s = parse_solve(out) if out else None
+    if s is None:
+        return f"Solve did not return a result: '{(out or '')[:80]}'"
+    m = c.meta
+    tr = parse_trace(out)
+    if not tr or len(tr) != s["stats"]["steps"] or len(tr) >= 400:
+        return None
+    pat = sorted(jac_pattern(m)); t = m["perm"][m["tracer"]]; idx = pat.index((t, t))
+    hs = []
+    for mat in tr:
+        d = mat[idx]
+        if not (d > 0) or d != d or d == float("inf"): return None
+        hs.append(1.0 / d)
+    runs = []
+    for h in hs:
+        if runs and abs(runs[-1][0] - h) <= 1e-12 * h: runs[-1][1] += 1
+        else: runs.append([h, 1])
+    reds = m["be"]["time_step_reductions"]; nfail = 0
+    def near(a, b): return abs(a - b) <= 1e-9 * max(abs(a), abs(b))
+    for q in range(len(runs) - 1):
+        h, n = runs[q]; h2 = runs[q + 1][0]
+        if nfail < len(reds) and near(h2, h * reds[nfail]) and not near(h2, 2 * h):
+            nfail += 1; c.tags.append("be_reduction"); continue
+        if near(h2, 2 * h):
+            c.tags.append("be_doubling")
+            if q > 0: c.tags.append("be_doubling_after_change")
+            if n < 4:
+                return (f"the step size was doubled from H={h!r} to {h2!r} after only {n} Newton iteration(s) at H={h!r}: two consecutive "
+                        f"successful integrations at that step need at least four (steps so far: {[round(x[0], 6) for x in runs[:q + 2]]}, Newton iterations per step size {[x[1] for x in runs[:q + 2]]})")
+            continue
+        if h2 < 2 * h * (1 + 1e-9):
+            c.tags.append("be_clip"); continue          # clipped to the remaining time (possibly after a doubling)
+        return f"the step size went from H={h!r} to {h2!r}: neither the next reduction factor, nor a doubling, nor a clip"
+    return None
 
 def g_c09(r, tier, env, Ls):
     n = 150 if tier == "quick" else 3000
